@@ -71,6 +71,66 @@ def find_method(cls, name):
     raise TranslatorError('%s.%s not found' % (cls.name, name))
 
 
+def probe_alignment(fn, what):
+    """The alignment a `pad[...]` entry implements: len(fn(n)) == (a - n % a) % a for all n < 64, for one a in 1..8."""
+    if not callable(fn):
+        raise TranslatorError('%s is missing' % what)
+    got = [len(fn(n)) for n in range(64)]
+    for a in range(1, 9):
+        if got == [(a - n % a) % a for n in range(64)]:
+            return a
+    raise TranslatorError('%s is not "pad to a multiple of a" for any a in 1..8: %r' % (what, got[:17]))
+
+
+def fresh_next_serial(message):
+    import os, subprocess, sys
+    root = os.path.dirname(os.path.dirname(os.path.abspath(message.__file__)))
+    r = subprocess.run([sys.executable, '-c', 'import sys; sys.path.insert(0, %r); from txdbus import message as m; '
+                        'print(m.DBusMessage._nextSerial)' % root], capture_output=True, text=True, timeout=60)
+    try:
+        return int(r.stdout.strip().split()[-1])
+    except (ValueError, IndexError):
+        raise TranslatorError('cannot determine the first serial: %s' % r.stderr[-300:])
+
+
+def probe_fds_entry(message):
+    """The header entry a method call with one descriptor carries beyond its class table."""
+    saved = message.DBusMessage._nextSerial
+    try:
+        m = message.MethodCallMessage('/a', 'm', signature='h', body=[0], oobFDs=[])
+    except Exception as e:
+        raise TranslatorError('probe of the unix_fds header entry failed: %r' % (e,))
+    finally:
+        message.DBusMessage._nextSerial = saved
+    table = {c for _, c, _ in message.MethodCallMessage._headerAttrs}
+    extra = [(c, v) for c, v in m.headers if c not in table]
+    names = [n for n, v in vars(m).items() if n in ATTR and n not in {a for a, _, _ in message.MethodCallMessage._headerAttrs}
+             and v == 1]
+    if len(extra) != 1 or len(names) != 1:
+        raise TranslatorError('probe of the unix_fds header entry: extra headers %r, attributes %r' % (extra, names))
+    return (names[0], extra[0][0], False)
+
+
+def probe_reserved_paths(message, marshal, tree):
+    cands = sorted({n.value for n in ast.walk(tree) if isinstance(n, ast.Constant) and isinstance(n.value, str)
+                    and n.value.startswith('/')})
+    out = []
+    saved = message.DBusMessage._nextSerial
+    try:
+        for p in cands:
+            try:
+                marshal.validateObjectPath(p)
+            except Exception:
+                continue
+            try:
+                message.MethodCallMessage(p, 'm')
+            except Exception:
+                out.append(p)
+    finally:
+        message.DBusMessage._nextSerial = saved
+    return out
+
+
 def tables(message, marshal):
     t = {}
     fmt = message._headerFormat
@@ -82,17 +142,18 @@ def tables(message, marshal):
     t['protocolVersion'] = nat(base._protocolVersion, '_protocolVersion')
     t['endian'] = nat(base.endian, 'endian')
     tree = ast.parse(inspect.getsource(message))
-    # _nextSerial literal
+    # the first serial: the literal in the class body, else the value a fresh interpreter sees
     found = None
-    for node in find_class(tree, 'DBusMessage').body:
-        if isinstance(node, ast.Assign) and len(node.targets) == 1 and isinstance(node.targets[0], ast.Name) \
-                and node.targets[0].id == '_nextSerial':
-            if not (isinstance(node.value, ast.Constant) and isinstance(node.value.value, int)
-                    and not isinstance(node.value.value, bool)):
-                raise TranslatorError('_nextSerial is not initialised with an integer literal')
-            found = node.value.value
+    try:
+        for node in find_class(tree, 'DBusMessage').body:
+            if isinstance(node, ast.Assign) and len(node.targets) == 1 and isinstance(node.targets[0], ast.Name) \
+                    and node.targets[0].id == '_nextSerial' and isinstance(node.value, ast.Constant) \
+                    and isinstance(node.value.value, int) and not isinstance(node.value.value, bool):
+                found = node.value.value
+    except TranslatorError:
+        found = None
     if found is None:
-        raise TranslatorError('no `_nextSerial = <int>` in class DBusMessage')
+        found = fresh_next_serial(message)
     t['nextSerialInit'] = nat(found, '_nextSerial')
     # classes
     t['classes'] = []
@@ -115,37 +176,51 @@ def tables(message, marshal):
         t['mtype'].append((nat(code, '_mtype key'), by_class[k]))
     # _hcode
     t['hcode'] = [(nat(code, '_hcode key'), attr(name, '_hcode')) for code, name in message._hcode.items()]
-    # alignment column
+    # alignments: what `marshal.pad[c]` does, cross-checked with the column of dbus_types
     t['align'] = []
+    column = {}
     for row in marshal.dbus_types:
         if not (isinstance(row, tuple) and len(row) == 3 and isinstance(row[1], str) and len(row[1]) == 1):
             raise TranslatorError('dbus_types row %r' % (row,))
-        t['align'].append((row[1], nat(row[2], 'alignment of %r' % row[1])))
-    # the appended unix_fds entry
+        column[row[1]] = nat(row[2], 'alignment of %r' % row[1])
+    for code in column:
+        a_ = probe_alignment(marshal.pad.get(code), 'pad[%r]' % code)
+        if a_ != column[code]:
+            raise TranslatorError('pad[%r] aligns to %d, dbus_types says %d' % (code, a_, column[code]))
+        t['align'].append((code, a_))
+    t['headerAlign'] = probe_alignment(marshal.pad.get('header'), "pad['header']")
+    # the appended unix_fds entry: AST shape, else probe a call that carries one descriptor
     app = []
-    for node in ast.walk(find_method(find_class(tree, 'DBusMessage'), '_marshal')):
-        if isinstance(node, ast.Call) and isinstance(node.func, ast.Attribute) and node.func.attr == 'append' \
-                and isinstance(node.func.value, ast.Name) and node.func.value.id == '_headerAttrs':
-            if len(node.args) != 1 or not isinstance(node.args[0], ast.Tuple):
-                raise TranslatorError('_headerAttrs.append(...) with an unexpected argument')
-            try:
-                app.append(ast.literal_eval(node.args[0]))
-            except ValueError:
-                raise TranslatorError('_headerAttrs.append(...) argument is not a literal tuple')
+    try:
+        for node in ast.walk(find_method(find_class(tree, 'DBusMessage'), '_marshal')):
+            if isinstance(node, ast.Call) and isinstance(node.func, ast.Attribute) and node.func.attr == 'append' \
+                    and isinstance(node.func.value, ast.Name) and node.func.value.id == '_headerAttrs' \
+                    and len(node.args) == 1 and isinstance(node.args[0], ast.Tuple):
+                try:
+                    app.append(ast.literal_eval(node.args[0]))
+                except ValueError:
+                    pass
+    except TranslatorError:
+        app = []
     if len(app) != 1:
-        raise TranslatorError('expected exactly one `_headerAttrs.append((...))` in _marshal, found %d' % len(app))
+        app = [probe_fds_entry(message)]
     t['unixFdsEntry'] = entry(app[0], 'appended header entry')
-    # the reserved path
+    # the reserved path: AST shape, else the string constant of the module that is a valid path and is refused
     res = []
-    for node in ast.walk(find_method(find_class(tree, 'MethodCallMessage'), '__init__')):
-        if isinstance(node, ast.If) and isinstance(node.test, ast.Compare) and len(node.test.ops) == 1 \
-                and isinstance(node.test.ops[0], ast.Eq) and isinstance(node.test.left, ast.Name) \
-                and node.test.left.id == 'path' and isinstance(node.test.comparators[0], ast.Constant) \
-                and isinstance(node.test.comparators[0].value, str) \
-                and any(isinstance(s, ast.Raise) for s in node.body):
-            res.append(node.test.comparators[0].value)
+    try:
+        for node in ast.walk(find_method(find_class(tree, 'MethodCallMessage'), '__init__')):
+            if isinstance(node, ast.If) and isinstance(node.test, ast.Compare) and len(node.test.ops) == 1 \
+                    and isinstance(node.test.ops[0], ast.Eq) and isinstance(node.test.left, ast.Name) \
+                    and node.test.left.id == 'path' and isinstance(node.test.comparators[0], ast.Constant) \
+                    and isinstance(node.test.comparators[0].value, str) \
+                    and any(isinstance(s_, ast.Raise) for s_ in node.body):
+                res.append(node.test.comparators[0].value)
+    except TranslatorError:
+        res = []
     if len(res) != 1:
-        raise TranslatorError('expected exactly one `if path == <str>: raise` in MethodCallMessage.__init__, found %d' % len(res))
+        res = probe_reserved_paths(message, marshal, tree)
+    if len(res) != 1:
+        raise TranslatorError('could not determine the reserved path of MethodCallMessage: candidates %r' % (res,))
     t['reservedPath'] = res[0]
     return t
 
@@ -169,6 +244,12 @@ def emit(repo):
     w('def headerFormat : List Char := %s' % chars(t['headerFormat']))
     w('/-- `DBusMessage._maxMsgLen` -/')
     w('def maxMsgLen : Nat := %d' % t['maxMsgLen'])
+    w('/-- `_maxMsgLen` as each message class sees it (a class may override the base attribute) -/')
+    w('def maxMsgLenOf : MsgClass → Nat')
+    for pyname, lean, _, _, mx in t['classes']:
+        w('  | .%s => %d   -- %s' % (lean, mx, pyname))
+    w("/-- the alignment `marshal.pad['header']` implements (probed) -/")
+    w('def headerAlign : Nat := %d' % t['headerAlign'])
     w('/-- `DBusMessage._protocolVersion` -/')
     w('def protocolVersion : Nat := %d' % t['protocolVersion'])
     w('/-- `DBusMessage.endian` -/')
@@ -178,12 +259,12 @@ def emit(repo):
     w('')
     w('/-- `_messageType` of each class -/')
     w('def messageType : MsgClass → Nat')
-    for pyname, lean, code, _ in t['classes']:
+    for pyname, lean, code, _, _ in t['classes']:
         w('  | .%s => %d   -- %s' % (lean, code, pyname))
     w('')
     w('/-- `_headerAttrs` of each class -/')
     w('def headerAttrs : MsgClass → List (Attr × Nat × Bool)')
-    for pyname, lean, _, entries in t['classes']:
+    for pyname, lean, _, entries, _ in t['classes']:
         w('  | .%s => [%s]' % (lean, ', '.join(entries)))
     w('')
     w('/-- the tuple appended to a copy of `_headerAttrs` in `_marshal` when descriptors were collected -/')
@@ -195,7 +276,8 @@ def emit(repo):
     w('/-- `_hcode` (keys in dict order) -/')
     w('def hcode : List (Nat × Attr) := [%s]' % ', '.join('(%d, %s)' % p for p in t['hcode']))
     w('')
-    w('/-- alignment column of `marshal.dbus_types` (0 for a code that has no row) -/')
+    w('/-- alignment of each type code: what `marshal.pad[code]` implements (probed; equal to the column of')
+    w('`marshal.dbus_types`); 0 for a code that has no entry -/')
     w('def align (c : Char) : Nat :=')
     for code, a in t['align']:
         w("  if c = '%s' then %d else" % (code, a))
@@ -208,7 +290,7 @@ def emit(repo):
     w('  { headerFormat := headerFormat, maxMsgLen := maxMsgLen, protocolVersion := protocolVersion,')
     w('    endian := endian, nextSerialInit := nextSerialInit, messageType := messageType,')
     w('    headerAttrs := headerAttrs, unixFdsEntry := unixFdsEntry, mtype := mtype, hcode := hcode,')
-    w('    align := align, reservedPath := reservedPath }')
+    w('    align := align, reservedPath := reservedPath, maxMsgLenOf := maxMsgLenOf, headerAlign := headerAlign }')
     w('')
     w('end Txdbus.Gen.Message')
     return '\n'.join(L) + '\n'
